@@ -162,6 +162,34 @@ def build_collection(case, paths, captured):
         settings = parser.parse_args(argv)
         loader = collection.CollectionLoader.create_from_args(settings)
         return loader.load_paths(paths)
+    if route == "cli_multi_tan":
+        # `toasty tile-multi-tan --hdu-index N --wcs-key K FILES...` (scalars only); the tiling itself is replaced by a stub that keeps
+        # the collection the command built
+        from toasty import cli, multi_tan
+
+        class CapturingProcessor(object):
+            def __init__(self, coll):
+                captured["coll"] = coll
+
+            def compute_global_pixelization(self, builder):
+                pass
+
+            def tile(self, *a, **k):
+                pass
+
+        orig_proc = multi_tan.MultiTanProcessor
+        multi_tan.MultiTanProcessor = CapturingProcessor
+        try:
+            argv = ["tile-multi-tan", "--outdir", os.path.join(os.path.dirname(paths[0]), "out-mt"), "--hdu-index", str(hdu_index)]
+            if wcs_key is not None:
+                argv += ["--wcs-key", wcs_key]
+            import contextlib, io
+
+            with contextlib.redirect_stdout(io.StringIO()):
+                cli.entrypoint(argv + list(paths))
+        finally:
+            multi_tan.MultiTanProcessor = orig_proc
+        return captured["coll"]
     if route == "tile_fits":
         import toasty
         from toasty import fits_tiler
@@ -353,6 +381,8 @@ def strat(draw, tier):
                 case["key_sel"] = {"kind": "none"}
         if ks["kind"] == "scalar" and ks["value"] == " ":
             case["key_sel"] = {"kind": "none"}
+    if case["hdu_sel"]["kind"] == "scalar" and case["key_sel"]["kind"] in ("none", "scalar") and draw(st.integers(0, 2)) == 0:
+        route = "cli_multi_tan"  # the multi-TAN tiling command has its own --hdu-index / --wcs-key (one value for every file)
     case["route"] = route
     case["as_list"] = draw(st.booleans())
     if draw(st.integers(0, 2)) == 0:
